@@ -504,14 +504,102 @@ def run_shard(ctx):
                     detail="%s via %s: %s" % (name, via,
                                               type(e).__name__),
                     vsig="size|%s|%s" % (name, type(e).__name__))
+    gone_cwd_cases(ctx, dschema)
     if pool:
         for i in range(N_VALIDATOR[ctx.tier] // ctx.nshards):
             do_validator(ctx, rng, os.path.join(ctx.tmp, "c07v"), pool)
 
 
+def gone_cwd_entries(base):
+    """(label, callable) pairs: loads that name everything absolutely, to
+    be run in a process whose working directory has been removed (a
+    daemon started from a directory that a deployment later replaced)."""
+    import ZConfig
+    schema = cc.load_schema(c06.DEFINE_SCHEMA)
+    os.makedirs(base, exist_ok=True)
+    files = {
+        "ok.conf": "k v\n",
+        "inc-missing.conf": "%include nosuchfile.conf\n",
+        "inc-abs-missing.conf": "%%include %s\n"
+        % os.path.join(base, "nosuch", "x.conf"),
+        "inc-ok.conf": "%include ok.conf\n<sec>\n  %include ok.conf\n"
+                       "</sec>\n",
+        "inc-bad.conf": "%include bad.conf\n",
+        "bad.conf": "<sec>\n",
+        "inc-dir.conf": "%include .\n",
+        "inc-pkg.conf": "%include package:nosuchpkg9:x\n",
+        "imp.conf": "%import nosuchpkg9\n",
+    }
+    for n, t in files.items():
+        with open(os.path.join(base, n), "w") as f:
+            f.write(t)
+    out = []
+    for n in sorted(files):
+        fp = os.path.join(base, n)
+        out.append(("path " + n,
+                    lambda fp=fp: ZConfig.loadConfig(schema, fp)))
+        out.append(("url " + n, lambda fp=fp: ZConfig.loadConfig(
+            schema, "file://" + fp)))
+
+        def fobj(fp=fp):
+            with open(fp) as f:
+                return ZConfig.loadConfigFile(schema, f)
+        out.append(("fobj " + n, fobj))
+    missing = os.path.join(base, "missing.conf")
+    out.append(("path missing", lambda: ZConfig.loadConfig(schema, missing)))
+    out.append(("url missing", lambda: ZConfig.loadConfig(
+        schema, "file://" + missing)))
+    out.append(("schema missing", lambda: ZConfig.loadSchema(
+        os.path.join(base, "missing.xml"))))
+    out.append(("text abs include missing", lambda: ZConfig.loadConfigFile(
+        schema, io.StringIO("%%include %s\n" % missing))))
+    out.append(("text abs include", lambda: ZConfig.loadConfigFile(
+        schema, io.StringIO("%%include %s\n"
+                            % os.path.join(base, "inc-missing.conf")))))
+    return out
+
+
+def gone_cwd_cases(ctx, dschema, only=None):
+    import tempfile
+    base = os.path.join(ctx.tmp, "c07 gone")
+    entries = gone_cwd_entries(base)
+    old = os.getcwd()
+    for i, (label, fn) in enumerate(entries):
+        if only is None and not ctx.mine(i):
+            continue
+        if only is not None and label != only:
+            continue
+        doomed = tempfile.mkdtemp(dir=ctx.tmp, prefix="doomed")
+        try:
+            os.chdir(doomed)
+            os.rmdir(doomed)
+            # the control: the same entry with the working directory in
+            # place says what the outcome is
+            cls, e = run_entry(fn)
+        finally:
+            os.chdir(old)
+        ccls, ce = run_entry(fn)
+        ctx.res.evaluations += 1
+        ctx.res.count("gone_cwd_cases")
+        ctx.res.sig("gonecwd|%s|%s" % (label, cls))
+        if cls == "internal" or cls != ccls:
+            ctx.res.violate(
+                "internal-exception-escaped" if cls == "internal"
+                else "outcome-depends-on-working-directory",
+                {"family": "gone-cwd", "entry": label},
+                "%s (as with the working directory in place)" % ccls,
+                "%s: %s" % (type(e).__name__, str(e)[:160]),
+                detail="working directory removed; %s -> %s: %s"
+                % (label, type(e).__name__, str(e)[:120]),
+                vsig="gonecwd|%s|%s" % (label.split()[0],
+                                        type(e).__name__))
+
+
 def replay(ctx, case):
     import ZConfig
     fam = case.get("family")
+    if fam == "gone-cwd":
+        return gone_cwd_cases(ctx, None, only=case["entry"])
     if fam == "include":
         d = os.path.join(ctx.tmp, "c07r")
         os.makedirs(os.path.join(d, "sub"))
